@@ -167,7 +167,7 @@ def native_replay(which, src, scratch, env, logs):
     return failed, msg, text
 
 
-def run(prop, src, scratch, env, logs):
+def run(prop, src, scratch, env, logs, tier="quick"):
     """returns (records, violations, inconclusive) ; violation = (record, replay_text)"""
     t0 = time.time()
     records, violations, inconclusive = [], [], []
@@ -178,12 +178,13 @@ def run(prop, src, scratch, env, logs):
     dump_s = time.time() - t0
     if prop == "C11":
         rec = dict(harness="mir::make_table_fill_loop", kind="obligation", engine="nightly MIR dump -> bounded path unrolling -> z3 (QF_BV)",
-                   claim="make_table: for one arbitrary square and an arbitrary MagicEntry with popcount(mask) <= 3, the fill loop visits EVERY subset of the mask (incl. empty and full), and each iteration writes table[magic_index(entry, b)] = slider_moves(deltas, square, b) for its blocker set b",
+                   claim="make_table: for one arbitrary square and an arbitrary MagicEntry with a mask of at most 3 bits (quick) / 4 bits (thorough), the fill loop visits EVERY subset of the mask (incl. empty and full), and each iteration writes table[magic_index(entry, b)] = slider_moves(deltas, square, b) for its blocker set b",
                    functions_encoded=["make_table", "Bitboard::is_empty", "u64::wrapping_sub"],
-                   assumptions="slider_moves / magic_index uninterpreted (their contracts: M1, M2); one arbitrary iteration of the outer loop over ORDERED_SQUARES; popcount(mask) <= 3 (<= 8 iterations), longer paths shown infeasible",
+                   assumptions="slider_moves / magic_index uninterpreted (their contracts: M1, M2); one arbitrary iteration of the outer loop over ORDERED_SQUARES; popcount(mask) <= 3 in the quick tier (<= 8 iterations), <= 4 in the thorough tier (<= 16); longer paths shown infeasible",
                    mir_dump_s=round(dump_s, 1))
         try:
-            r = mirloop.check(mir, src)
+            # quick: masks <= 3 bits (z3 4.8.12, ~12 s); thorough: <= 4 bits (16 subsets; z3 5.1 needs ~10 min)
+            r = mirloop.check(mir, src, k=4, solver="z3-new") if tier == "thorough" else mirloop.check(mir, src, k=3)
         except Exception as e:  # noqa
             rec.update(verdict="unsupported", outcome="inconclusive: " + str(e)[:300])
             return [rec], [], [(rec["harness"], str(e)[:300])]
